@@ -320,6 +320,9 @@ func genURIPair(t *rapid.T) CaseURIPair {
 				switch asciiLower(p.Name) {
 				case "user", "ttl", "method", "maddr":
 				default:
+					if ln := asciiLower(p.Name); len(ln) >= 2 && ln[:2] == "zp" {
+						continue // would duplicate one of the padding names (duplicate names are outside the property)
+					}
 					keep = append(keep, p)
 				}
 			}
